@@ -44,6 +44,10 @@ type c18Case struct {
 	Procs    int       `json:"procs,omitempty"`
 	ParSeed  int64     `json:"parSeed,omitempty"`
 	ParCount int       `json:"parCount,omitempty"`
+	// Nested (lin): the concurrent store is wrapped in a second ConcurrentFactStore and the clients are split between
+	// the two handles (a component that defensively wraps the store it is handed while its caller keeps using its own
+	// handle): still one logical store
+	Nested bool `json:"nested,omitempty"`
 }
 
 type c18 struct{}
@@ -60,7 +64,7 @@ func (c18) Cases(tier string) int {
 func (c18) Describe() core.Info {
 	return core.Info{
 		Level: "exploration",
-		Rule: "run from a -race build. (lin) 4-8 goroutines x 5-12 operations (add, remove, contains, pattern query, merge from another store, count, list) on a ConcurrentFactStore over each of the four base stores, 6-atom universe, GOMAXPROCS in {2,4,16}, client-side jitter (Gosched, 0-50us sleeps), slow collaborators that yield inside Merge's source store and inside the GetFacts callback; histories recorded at the client boundary with one atomic logical clock (call stamp before invoking, return stamp after the reply) and checked with porcupine v1.3.0 against a sequential set model (bitmask state; a query returns exactly the matching set; merge is one atomic union); Unknown (60s timeout) = inconclusive. (par) 12-16 goroutines each running parse -> analyse -> evaluate -> explain -> simple-column write/read on their own generated programs and stores, all started together; every result must equal the result of the same pipeline run alone beforehand. Any WARNING: DATA RACE / concurrent map fatal error in the worker is a violation. Non-trivial: history in which a write overlapped a query in real time (lin) or >= 12 pipelines ran together (par); distinct by case content. Evidence: overlapping operation pairs, write/query overlaps.",
+		Rule: "run from a -race build. (lin) 4-8 goroutines x 5-12 operations (add, remove, contains, pattern query, merge from another store, count, list) on a ConcurrentFactStore over each of the four base stores (every fifth history: wrapped a second time, the clients split between the inner and the outer handle), 6-atom universe, GOMAXPROCS in {2,4,16}, client-side jitter (Gosched, 0-50us sleeps), slow collaborators that yield inside Merge's source store and inside the GetFacts callback; histories recorded at the client boundary with one atomic logical clock (call stamp before invoking, return stamp after the reply) and checked with porcupine v1.3.0 against a sequential set model (bitmask state; a query returns exactly the matching set; merge is one atomic union); Unknown (60s timeout) = inconclusive. (par) 12-16 goroutines each running parse -> analyse -> evaluate -> explain -> simple-column write/read on their own generated programs and stores, all started together; every result must equal the result of the same pipeline run alone beforehand. Any WARNING: DATA RACE / concurrent map fatal error in the worker is a violation. Non-trivial: history in which a write overlapped a query in real time (lin) or >= 12 pipelines ran together (par); distinct by case content. Evidence: overlapping operation pairs, write/query overlaps.",
 		Assumptions: []string{"only interleavings the Go scheduler produced are judged", "no hash-equal distinct atoms in the universe"},
 		Env:         []string{"GORACE=halt_on_error=1", "GOMAXPROCS=16"},
 		MaxWorkers:  4,
@@ -95,7 +99,7 @@ func (c18) Gen(r *rand.Rand, tier string, i int) any {
 	if i%20 == 19 {
 		return c18Case{Mode: "par", ParSeed: r.Int63(), ParCount: 12 + r.Intn(5), Procs: []int{4, 16}[r.Intn(2)]}
 	}
-	c := c18Case{Mode: "lin", Kind: baseKinds[r.Intn(len(baseKinds))], Init: uint8(r.Intn(64)), Procs: []int{2, 4, 16}[r.Intn(3)]}
+	c := c18Case{Mode: "lin", Kind: baseKinds[r.Intn(len(baseKinds))], Init: uint8(r.Intn(64)), Procs: []int{2, 4, 16}[r.Intn(3)], Nested: i%5 == 2}
 	nc := 4 + r.Intn(5)
 	for k := 0; k < nc; k++ {
 		var ops []c18Op
@@ -235,7 +239,11 @@ func c18Lin(c c18Case, res *core.Result) *evalFail {
 			base.Add(a)
 		}
 	}
-	store := factstore.NewConcurrentFactStore(base)
+	inner := factstore.NewConcurrentFactStore(base)
+	handles := []factstore.FactStoreWithRemove{inner, inner}
+	if c.Nested {
+		handles[1] = factstore.NewConcurrentFactStore(inner)
+	}
 	var clock int64
 	var mu sync.Mutex
 	ops := []porcupine.Operation{{ClientId: 0, Input: c18Op{Op: "init", Set: c.Init}, Call: 0, Output: c18Out{}, Return: 0}}
@@ -247,6 +255,7 @@ func c18Lin(c c18Case, res *core.Result) *evalFail {
 		go func(ci int, plan []c18Op) {
 			defer wg.Done()
 			r := rand.New(rand.NewSource(int64(ci)*7919 + int64(len(plan))))
+			store := handles[ci%2]
 			<-start
 			for _, op := range plan {
 				switch r.Intn(4) {
